@@ -244,12 +244,13 @@ def check_program(spec, mat, col, case, nontrivial=False):
     if s["k"] in ("class", "enum") or spec["k"] in ("newtype", "alias", "stralias"):
         named = spec if spec["k"] in ("newtype", "alias", "stralias") else s
         if named is spec or spec["k"] not in ("final", "classvar"):
-            qn = f"{mat.modname(named['mod'])}.{named['name']}"
+            local = f"{named['name']}_Ns.{named['name']}" if (named["k"] == "class" and named.get("nest")) else named["name"]
+            qn = f"{mat.modname(named['mod'])}.{local}"
             forms["string"] = lambda: graph.static_order(qn)
-            forms["forwardref"] = lambda: graph.static_order(FR(named["name"], module=mat.modname(named["mod"])))
-            iss = clashing_issuer([n for (_m, n) in mat.classes] + [f"M{i}" for i in mat.modules])
+            forms["forwardref"] = lambda: graph.static_order(FR(local, module=mat.modname(named["mod"])))
+            iss = clashing_issuer([n for (_m, n) in mat.classes] + [n + "_Ns" for (_m, n) in mat.classes] + [f"M{i}" for i in mat.modules])
             forms["string@clash"] = lambda: iss.order(graph, qn)
-            forms["forwardref@clash"] = lambda: iss.order(graph, FR(named["name"], module=mat.modname(named["mod"])))
+            forms["forwardref@clash"] = lambda: iss.order(graph, FR(local, module=mat.modname(named["mod"])))
     elif "." not in mat.root_expr and "M0" not in mat.root_expr and "'" not in mat.root_expr and "Literal" not in mat.root_expr:
         # (only text every module can resolve: builtin names; the bare name `Literal` is bound by the program's modules only)
         forms["string"] = lambda: graph.static_order(mat.root_expr)
